@@ -4,6 +4,8 @@ import CifModel.Lemmas.NumbRoundtrip
 import CifModel.Lemmas.NumbAutoinit
 import CifModel.Lemmas.StoreValue
 import CifModel.Lemmas.StoreInv
+import CifModel.Lemmas.NumbOk
+import CifModel.Lemmas.StoreCodec
 /-
   Property C07 — values stored in a CIF are read back identical.
 
@@ -182,6 +184,66 @@ theorem C07_numb_in_list_full (v : V) (h : C07_constructible v) :
     C07_numbsConsistent parseFields v ∧ deserialize parseFields (ser v) = some (v, []) :=
   ⟨C07_numb_in_list v h, deserialize_ser parseFields v (C07_numb_in_list v h)⟩
 
+/-! ### bridge: what the API can construct, the store can hold -/
+
+/-- the fields of every number the API produces pass the CHECK constraints of item_value (`numbOk`) -/
+def C07_numbFieldsOk : V → Bool
+  | .numb _ t neg d su _ => numbOk t neg d su
+  | _ => true
+
+theorem C07_numbProduced_ok (v : V) (h : C07_numbProduced v) : C07_numbFieldsOk v = true := by
+  cases h with
+  | parsed q t f hp =>
+    have : Model.Numb.numbOfText q t = .numb q (Model.Numb.cstr t) f.neg f.digits f.su f.scale := by
+      unfold Model.Numb.numbOfText; rw [hp]
+    rw [this]
+    exact (Lemmas.NumbOk.parseNumb_numbOk t f hp).1
+  | init val su scale maxLead msp q q' t neg digits suD sc hi =>
+    have hp := Lemmas.NumbRoundtrip.initNumb_roundtrip val su scale maxLead msp q t neg digits suD sc hi
+    exact (Lemmas.NumbOk.parseNumb_numbOk t ⟨neg, digits, suD, sc⟩ hp).2
+  | autoinit val su rule msp q q' t neg digits suD sc ha =>
+    have hp : Model.Numb.parseNumb t = some ⟨neg, digits, suD, sc⟩ := by
+      unfold Model.Numb.autoinitNumb at ha
+      split at ha
+      · cases ha
+      · split at ha
+        · exact Lemmas.NumbRoundtrip.initNumb_roundtrip _ _ _ _ _ q t neg digits suD sc ha
+        · exact Lemmas.NumbRoundtrip.initNumb_roundtrip _ _ _ _ _ q t neg digits suD sc ha
+    exact (Lemmas.NumbOk.parseNumb_numbOk t ⟨neg, digits, suD, sc⟩ hp).2
+
+/-- the one limit of the store that construction does not guarantee: the serialised form of a list or table must be
+    smaller than the address space (2^64 bytes) — beyond it `cif_value_serialize` cannot succeed on any machine -/
+def C07_fits : V → Prop
+  | .lst vs => widthSum (ser (.lst vs)) < SZ
+  | .tbl es => widthSum (ser (.tbl es)) < SZ
+  | _ => True
+
+/-- **C07_constructible_wf** — the bridge between the two families of theorems: every value the API can construct (and
+    that fits the address space) satisfies `wfValue`, the hypothesis of the column and store theorems -/
+theorem C07_constructible_wf (v : V) (h : C07_constructible v) (hf : C07_fits v) : wfValue parseFields v = true := by
+  have hn := C07_numb_in_list v h
+  cases v with
+  | unk => rfl
+  | na => rfl
+  | chr q t => rfl
+  | numb q t n d su sc =>
+    have := C07_numbProduced_ok _ (by simpa [C07_constructible] using h)
+    simpa [wfValue, C07_numbFieldsOk] using this
+  | lst vs =>
+    simp only [C07_fits] at hf
+    simp only [C07_numbsConsistent, numbsParse] at hn
+    simp [wfValue, hf, hn]
+  | tbl es =>
+    simp only [C07_fits] at hf
+    simp only [C07_numbsConsistent, numbsParse] at hn
+    simp [wfValue, hf, hn]
+
+/-- … so the column round trip holds for every constructible value: the row the C binds passes the CHECK constraints and
+    GET_VALUE_PROPS rebuilds the value from it -/
+theorem C07_constructible_columns (v : V) (h : C07_constructible v) (hf : C07_fits v) :
+    ∃ row, toColumns v = some row ∧ checks row = true ∧ fromColumns parseFields row = some v :=
+  C07_columns_roundtrip parseFields v (C07_constructible_wf v h hf)
+
 /-- … hence **every constructible value survives serialisation**, whatever its depth and whichever number functions
     built its numbers -/
 theorem C07_constructible_roundtrip (v : V) (h : C07_constructible v) :
@@ -228,21 +290,28 @@ open CifModel.Store in
     exists: every packet of its loop; the item is new: the container's scalar loop), for every well-formed value:
     the row the C writes passes the CHECK constraints and decodes to `v`; the call succeeds resp. — where creating the
     scalar item can fail for reasons of the store (C04) — if it succeeds, every value stored for the item is `v` and
-    get_value delivers `v` (for an existing item of a loop without packets: CIF_NOSUCH_ITEM, nothing is stored). -/
+    get_value delivers `v`.  For an existing item the two answers are separated: with `ln` the item's loop, every packet
+    (row) of the loop holds `v` afterwards; get_value answers `ok (v, _)` when the loop has a packet and CIF_NOSUCH_ITEM
+    exactly when it has none (then there is no place to store a value: the call succeeds and stores nothing — the
+    documented behaviour of an item of a packet-less loop). -/
 theorem C07_store_read (s : Store) (h : CH) (n : Name) (v : V) (hwf : wfValue parseFields v = true)
     (hv : n.valid = true) (hac : s.autocommit = true) :
     (∃ row, toColumns v = some row ∧ checks row = true ∧ fromColumns parseFields row = some v)
     ∧ (∀ l, getItemLoopInternal s.db h.id n.key = .ok l →
-        (setValue s h (some n) (some v)).2 = .ok ()
-        ∧ ((getValue (setValue s h (some n) (some v)).1 h (some n)).2 = .error Gen.ErrCodes.CIF_NOSUCH_ITEM
-            ∨ ∃ b, (getValue (setValue s h (some n) (some v)).1 h (some n)).2 = .ok (v, b)))
+        ∃ ln, s.db.loopOfItem h.id n.key = some ln
+          ∧ (setValue s h (some n) (some v)).2 = .ok ()
+          ∧ (∀ r ∈ s.db.loopRows h.id ln, (setValue s h (some n) (some v)).1.db.cell h.id n.key r = some v)
+          ∧ (s.db.loopRows h.id ln ≠ [] →
+              ∃ b, (getValue (setValue s h (some n) (some v)).1 h (some n)).2 = .ok (v, b))
+          ∧ (s.db.loopRows h.id ln = [] →
+              (getValue (setValue s h (some n) (some v)).1 h (some n)).2 = .error Gen.ErrCodes.CIF_NOSUCH_ITEM))
     ∧ (getItemLoopInternal s.db h.id n.key = .error Gen.ErrCodes.CIF_NOSUCH_ITEM →
         (setValue s h (some n) (some v)).2 = .ok () →
         ∃ b, (getValue (setValue s h (some n) (some v)).1 h (some n)).2 = .ok (v, b)) := by
   refine ⟨C07_columns_roundtrip parseFields v hwf, ?_, ?_⟩
   · intro l hl
-    have := setValue_existing_read s h n v l hv hac hl
-    exact ⟨this.1, this.2.2⟩
+    obtain ⟨ln, hln, hok, _, hcells, hsome, hnone⟩ := setValue_existing_read_strong s h n v l hv hac hl
+    exact ⟨ln, hln, hok, hcells, hsome, hnone⟩
   · intro hnew hok
     obtain ⟨hall, row, hcell⟩ := setValue_new_read s h n v hv hac hnew hok
     exact getValue_delivers _ h n v hv hall row hcell
@@ -284,6 +353,81 @@ theorem C07_store_read_delivers_cells (d : Db) (hinv : Inv d) (cid ln : Nat) (k 
     rw [hc] at this
     exact ⟨hc, this⟩
 
+/-! ### codec ∘ store: stored through any route, read back identical through any reading statement
+
+  `Model/StoreCodec`: the API operations with every value passed through `image = fromColumns ∘ checks ∘ toColumns` on its
+  way into the table (what a cell of the store model holds is what the bound columns denote).  The theorem below is about
+  these composed operations and quantifies over every value the API can construct (`C07_constructible`, any nesting,
+  numbers from every number function) that fits the address space (`C07_fits`): no `wfValue` hypothesis — the bridge
+  `C07_constructible_wf` discharges it, and with it the codec is the identity (`image v = some v`).
+  Reading: `ReadsBack d cid k row v` — GET_VALUE_SQL (cif_container_get_value) and GET_LOOP_VALUES_SQL (the statement
+  cif_pktitr_next_packet and cif_walk read) both return a row for the cell and only rows carrying `v`; for
+  cif_container_set_value the API-level answer of cif_container_get_value as well. -/
+
+open CifModel.Store CifModel.Store.Codec in
+/-- **C07_stored_read_identical** — in every state satisfying the store invariant, for every constructible value:
+    stored through cif_container_set_value (existing item: every packet of its loop; new item: the scalar loop),
+    cif_loop_add_item (every packet of the loop), cif_loop_add_packet (the new packet, every item given) or
+    cif_pktitr_update_packet (the current packet, every item given), the value is read back identical by both reading
+    statements; set_value → get_value also at API level. -/
+theorem C07_stored_read_identical (s : Store) (hinv : InvS s) :
+    (∀ (h : CH) (n : Name) (v : V) (l : LH), C07_constructible v → C07_fits v → n.valid = true → s.autocommit = true →
+        getItemLoopInternal s.db h.id n.key = .ok l →
+        ∃ ln, s.db.loopOfItem h.id n.key = some ln ∧ (setValueC s h n v).2 = .ok ()
+          ∧ (∀ r ∈ s.db.loopRows h.id ln, ReadsBack (setValueC s h n v).1.db h.id n.key r v)
+          ∧ (s.db.loopRows h.id ln ≠ [] → ∃ b, (getValue (setValueC s h n v).1 h (some n)).2 = .ok (v, b)))
+    ∧ (∀ (h : CH) (n : Name) (v : V), C07_constructible v → C07_fits v → n.valid = true → s.autocommit = true →
+        getItemLoopInternal s.db h.id n.key = .error Gen.ErrCodes.CIF_NOSUCH_ITEM → (setValueC s h n v).2 = .ok () →
+        (∃ row, ReadsBack (setValueC s h n v).1.db h.id n.key row v)
+        ∧ ∃ b, (getValue (setValueC s h n v).1 h (some n)).2 = .ok (v, b))
+    ∧ (∀ (l : LH) (n : Name) (v : V), C07_constructible v → C07_fits v → n.valid = true → (addItemC s l n v).2 = .ok () →
+        ∃ d1, s.db.insertItem l.cid n.key n.orig l.loopNum = some d1
+          ∧ ∀ r ∈ d1.loopRows l.cid l.loopNum, ReadsBack (addItemC s l n v).1.db l.cid n.key r v)
+    ∧ (∀ (l : LH) (pkt : List (Str × V)), (∀ e ∈ pkt, C07_constructible e.2 ∧ C07_fits e.2) → (addPacketC s l pkt).2 = .ok () →
+        ∃ row, ∀ e ∈ pkt, ReadsBack (addPacketC s l pkt).1.db l.cid e.1 row e.2)
+    ∧ (∀ (it : Iter) (pkt : List (Str × V)), (∀ e ∈ pkt, C07_constructible e.2 ∧ C07_fits e.2) → keysDistinct pkt →
+        (updatePacketC s it pkt).2 = .ok () →
+        ∀ e ∈ pkt, ReadsBack (updatePacketC s it pkt).1.db it.cid e.1 it.prev.toNat e.2) := by
+  refine ⟨?_, ?_, ?_, ?_, ?_⟩
+  · intro h n v l hc hf hv hac hl
+    have hw := C07_constructible_wf v hc hf
+    rw [setValueC_wf s h n v hw]
+    obtain ⟨ln, hln, hok, _, hcells, hsome, _⟩ := setValue_existing_read_strong s h n v l hv hac hl
+    have hpost : Inv (setValue s h (some n) (some v)).1.db := (setValue_invS hinv h (some n) (some v)).db
+    exact ⟨ln, hln, hok, fun r hr => readsBack_of_cell _ hpost _ _ _ _ (hcells r hr), hsome⟩
+  · intro h n v hc hf hv hac hnew hok
+    have hw := C07_constructible_wf v hc hf
+    rw [setValueC_wf s h n v hw] at hok ⊢
+    obtain ⟨hall, row, hcell⟩ := setValue_new_read s h n v hv hac hnew hok
+    have hpost : Inv (setValue s h (some n) (some v)).1.db := (setValue_invS hinv h (some n) (some v)).db
+    exact ⟨⟨row, readsBack_of_cell _ hpost _ _ _ _ hcell⟩, getValue_delivers _ h n v hv hall row hcell⟩
+  · intro l n v hc hf hv hok
+    have hw := C07_constructible_wf v hc hf
+    rw [addItemC_wf s l n v hw] at hok ⊢
+    obtain ⟨_, d1, hi, hcells⟩ := addItem_read s l n v hv hok
+    have hpost : Inv (addItem s l (some n) (some v)).1.db := (addItem_invS hinv l (some n) (some v)).db
+    exact ⟨d1, hi, fun r hr => readsBack_of_cell _ hpost _ _ _ _ (hcells r hr)⟩
+  · intro l pkt hp hok
+    have hw : ∀ e ∈ pkt, wfValue parseFields e.2 = true := fun e he => C07_constructible_wf e.2 (hp e he).1 (hp e he).2
+    rw [addPacketC_wf s l pkt hw] at hok ⊢
+    obtain ⟨row, hcells⟩ := addPacket_read s l pkt hok
+    have hpost : Inv (addPacket s l pkt).1.db := (addPacket_invS hinv l pkt).db
+    exact ⟨row, fun e he => readsBack_of_cell _ hpost _ _ _ _ (hcells e he)⟩
+  · intro it pkt hp hd hok
+    have hw : ∀ e ∈ pkt, wfValue parseFields e.2 = true := fun e he => C07_constructible_wf e.2 (hp e he).1 (hp e he).2
+    rw [updatePacketC_wf s it pkt hw] at hok ⊢
+    obtain ⟨hcells, _⟩ := updatePacket_read s it pkt hd hok
+    have hpost : Inv (updatePacket s it pkt).1.db := (updatePacket_invS hinv it pkt).db
+    exact fun e he => readsBack_of_cell _ hpost _ _ _ _ (hcells e he)
+
+open CifModel.Store in
+/-- a value the codec cannot carry is refused by the composed operations — nothing is stored (the C: CIF_ERROR, rollback):
+    e.g. a number with an empty digit string (`C07_cex_empty_digits`) -/
+theorem C07_refused_not_stored (s : Store) (h : CH) (n : Name) (q : Bool) (t : Str) (neg : Bool) (su : Option (List Nat)) (sc : Int) :
+    CifModel.Store.Codec.setValueC s h n (.numb q t neg [] su sc) = (s, .error Gen.ErrCodes.CIF_ERROR) := by
+  obtain ⟨row, h1, h2⟩ := empty_digits_rejected q t neg su sc
+  simp [CifModel.Store.Codec.setValueC, CifModel.Store.Codec.image, h1, h2]
+
 /-! ### non-vacuity -/
 
 /-- a nested value with both key spellings, a quoted flag, an empty list and a number -/
@@ -292,6 +436,9 @@ def C07_sample : V :=
 
 example : C07_numbsConsistent parseFields C07_sample := by decide +kernel
 example : wfValue parseFields C07_sample = true := by decide +kernel
+-- the codec, executed: bind the columns, check, rebuild (list → blob → list, the number re-parsed)
+example : (CifModel.Store.Codec.image C07_sample == some C07_sample) = true := by decide +kernel
+example : (CifModel.Store.Codec.image (.numb false (a!"1.5") false [] none 1)).isNone = true := by decide +kernel
 example : deserialize parseFields (ser C07_sample) = some (C07_sample, []) :=
   (C07_serialize_roundtrip parseFields C07_sample (by decide +kernel)).1
 example : wfValue parseFields (.numb true (a!"-12(3)") true [1, 2] (some [3]) 0) = true := by decide +kernel
